@@ -41,6 +41,9 @@ func GetProtocolSchema(protocol *ProtocolDefinition, symbolTable SymbolTable) *P
 
 			schema.Types = append(schema.Types, removeComments(t))
 
+			// Types that only the computed fields refer to are not part of the schema either
+			node = t
+
 		case *SimpleType:
 			self.Visit(symbolTable.GetGenericTypeDefinition(t.ResolvedDefinition))
 			for _, typeArg := range t.ResolvedDefinition.GetDefinitionMeta().TypeParameters {
